@@ -866,7 +866,9 @@ func classifyCrash(stderr string) (string, map[string]string) {
 // runtime and of dependencies above it are skipped: a dependency is attributed
 // to whoever called it. An access made by the harness proper - directly or
 // through a dependency - is not an access of the code under test; a report
-// whose two accesses are both of that kind yields "" (harness-only).
+// with such an access yields "" (not judged; counted as
+// harness_only_race_reports in the evidence). What an application would read
+// or write goes through verif/sim/touch and is judged.
 func raceSites(s string) string {
 	var sites []string
 	relevant := false
@@ -905,6 +907,16 @@ func raceSites(s string) string {
 	}
 	if !relevant {
 		return ""
+	}
+	for _, st := range sites {
+		if strings.HasPrefix(st, "harness:") {
+			// one access was made by the harness proper, outside its
+			// application-side accessors: bookkeeping (printing an error it
+			// was handed by another harness goroutine, say). The ordering it
+			// lacks is the simulator's hidden hand-off between two harness
+			// goroutines, not something the library failed to provide.
+			return ""
+		}
 	}
 	sort.Strings(sites)
 	return strings.Join(sites, " vs ")
